@@ -303,6 +303,7 @@ pub fn fingerprint_diff(a: &[(String, String)], b: &[(String, String)]) -> Vec<S
     for (k, v) in &ma {
         match mb.get(k) {
             Some(w) if w == v => {}
+            Some(w) if k == "payments" => d.push(format!("{} differs [{}] vs [{}]", k, v, w)),
             Some(_) => d.push(format!("{} differs", k)),
             None => d.push(format!("{} missing after", k)),
         }
